@@ -58,6 +58,13 @@ theorem matchAt_complete (re : Re) (p : Pos) (fuel : Nat) (hf : re.need p.after.
     (matchAt re fuel p).isSome = true ↔ ∃ q, Matches re p q :=
   matchAt_isSome_iff hf
 
+/-- the relation is inhabited and the fuel hypothesis satisfiable: `ab*` on `abb`, `(a|b)+$` on a
+two-byte rune -/
+example : (∃ q, Matches (.cat (.lit 97) (.star (.lit 98) true)) (Pos.start [97, 98, 98]) q) ∧
+    (∃ q, Matches (.cat (.plus (.alt (.lit 233) (.lit 98)) false) .eot) (Pos.start [195, 169, 98]) q) :=
+  ⟨(matchAt_isSome_iff (fuel := 50) (by decide)).mp (by decide +kernel),
+   (matchAt_isSome_iff (fuel := 50) (by decide)).mp (by decide +kernel)⟩
+
 /-- The fuel `find` / `findAll` / `isMatch` pass to the engine is enough at every position. -/
 theorem fuel_sufficient (re : Re) (s : Bytes) (n : Nat) (h : n ≤ s.length) :
     re.need n ≤ fuelFor re s :=
@@ -67,6 +74,18 @@ theorem fuel_sufficient (re : Re) (s : Bytes) (n : Nat) (h : n ≤ s.length) :
 theorem isMatch_iff (re : Re) (s : Bytes) :
     isMatch re s = true ↔ ∃ p q, RuneReach (Pos.start s) p ∧ Matches re p q :=
   Rx.isMatch_iff re s
+
+/-- **Leftmost.** The match `find` reports starts at the smallest rune-boundary offset at which
+the relation allows any match (the "leftmost" half of Go's leftmost-first rule). -/
+theorem find_leftmost (re : Re) (s : Bytes) (a e : Nat) (c : Caps)
+    (h : find re s = some (a, e, c)) (p q : Pos) (hr : RuneReach (Pos.start s) p)
+    (hM : Matches re p q) : a ≤ p.off :=
+  Rx.find_leftmost h hr hM
+
+/-- `find` fails exactly when no span matches. -/
+theorem find_none_iff (re : Re) (s : Bytes) :
+    find re s = none ↔ ¬ ∃ p q, RuneReach (Pos.start s) p ∧ Matches re p q :=
+  find_eq_none_iff re s
 
 /-! ## Shape of matches -/
 
@@ -121,6 +140,11 @@ theorem isMatch_line_local (body : Re) (hn : body.noLF = true) (hna : body.noTex
       ∃ l ∈ splitLF s, isMatch (.cat .bol (.cat body .eol)) l = true :=
   isMatch_line_iff hn hna s
 
+example : (Re.cat (.lit 35) (.lit 35)).noLF = true ∧ (Re.cat (.lit 35) (.lit 35)).noTextAnchor = true ∧
+    isMatch (.cat .bol (.cat (.cat (.lit 35) (.lit 35)) .eol)) [97, 10, 35, 35, 10, 98] = true ∧
+    isMatch (.cat .bol (.cat (.cat (.lit 35) (.lit 35)) .eol)) [97, 35, 35, 10, 98] = false := by
+  refine ⟨rfl, rfl, ?_, ?_⟩ <;> decide +kernel
+
 /-- The NETCONF 1.1 end-of-message regex `(?m)^##$`, as extracted from the source, matches a text
 iff one of its lines is exactly `##` (the regex framing finding F2 is about). -/
 theorem v1Dot1Delim_iff (s : Bytes) :
@@ -147,6 +171,10 @@ theorem v1Dot1Delim_iff (s : Bytes) :
 /-- The spans `findAll` reports are in order, do not overlap and lie inside the subject. -/
 theorem findAll_spans (re : Re) (s : Bytes) : SpansIn s.length 0 (findAll re s) :=
   Rx.findAll_spans re s
+
+example : findAll (.plus (.lit 98) true) [97, 98, 98, 97, 98] = [(1, 3, []), (4, 5, [])] ∧
+    replaceAll (.plus (.lit 98) true) [97, 98, 98, 97, 98] [] = [97, 97] := by
+  constructor <;> decide +kernel
 
 /-- `ReplaceAll(s, "")` only removes bytes. -/
 theorem replaceAll_sublist (re : Re) (s : Bytes) : (replaceAll re s []).Sublist s :=
